@@ -119,6 +119,13 @@ var ErrIndexAlreadyInitialized = errors.New("index already initialized")
 const MaxKeyLen = 1024 // assumed to be not lower than hash size
 const MaxParallelIO = 127
 
+// MaxValueLen is the highest value length that can be stored using 4 bytes
+const MaxValueLen = 1<<32 - 1
+
+// MaxTxEntries limits the number of entries per transaction,
+// tx holders with room for that many entries (and their keys) are allocated upfront
+const MaxTxEntries = 1 << 20
+
 const cLogEntrySizeV1 = offsetSize + lszSize               // tx offset + hdr size
 const cLogEntrySizeV2 = offsetSize + lszSize + sha256.Size // tx offset + hdr size + alh
 
@@ -415,6 +422,24 @@ func OpenWith(path string, vLogs []appendable.Appendable, txLog, cLog appendable
 		return nil, fmt.Errorf("%w: can not read '%s' from metadata", ErrCorruptedCLog, "MaxValueLen")
 	}
 
+	// values read from the metadata are validated as the options they were set from,
+	// buffers and tx holders are allocated based on them
+	if version <= 0 || version > Version {
+		return nil, fmt.Errorf("%w: unsupported '%s' (%d) in metadata", ErrCorruptedCLog, "Version", version)
+	}
+	if fileSize <= 0 || fileSize >= MaxFileSize {
+		return nil, fmt.Errorf("%w: invalid '%s' (%d) in metadata", ErrCorruptedCLog, "FileSize", fileSize)
+	}
+	if maxTxEntries <= 0 || maxTxEntries > MaxTxEntries {
+		return nil, fmt.Errorf("%w: invalid '%s' (%d) in metadata", ErrCorruptedCLog, "MaxTxEntries", maxTxEntries)
+	}
+	if maxKeyLen <= 0 || maxKeyLen > MaxKeyLen {
+		return nil, fmt.Errorf("%w: invalid '%s' (%d) in metadata", ErrCorruptedCLog, "MaxKeyLen", maxKeyLen)
+	}
+	if maxValueLen <= 0 || uint64(maxValueLen) > MaxValueLen {
+		return nil, fmt.Errorf("%w: invalid '%s' (%d) in metadata", ErrCorruptedCLog, "MaxValueLen", maxValueLen)
+	}
+
 	// These limits are persisted to metadata at store creation and cannot be changed
 	// on subsequent opens. Warn the caller when the supplied option differs from the
 	// stored value so that silent ignore doesn't surprise users (see issue #1864).
@@ -519,6 +544,12 @@ func OpenWith(path string, vLogs []appendable.Appendable, txLog, cLog appendable
 
 		if txLogFileSize < committedTxLogSize {
 			return nil, fmt.Errorf("corrupted transaction log: size is too small: %w", ErrCorruptedTxData)
+		}
+
+		if committedTxOffset < 0 || committedTxSize > maxTxSize(maxTxEntries, maxKeyLen, maxTxMetadataLen, maxKVMetadataLen) {
+			// a transaction is never bigger than the buffer used to serialize it,
+			// a read buffer of the announced size is allocated below
+			return nil, fmt.Errorf("%w: invalid offset (%d) or size (%d) of the last transaction", ErrCorruptedCLog, committedTxOffset, committedTxSize)
 		}
 	}
 
